@@ -764,10 +764,11 @@ fn rr_state<S: Sut>(s: &S, rng: &mut Rng, st: &mut RrStats, seed: u64) {
         a.reset_remove_c(&c1);
         let got = dump(&a);
         let want = norm(&rr_model(&d0, &c1));
+        if pending_count(&want) < surviving_pending(&d0, &c1) {
+            // two pending removes whose contexts become equal once c1 is subtracted (must be united)
+            st.collisions += 1;
+        }
         if got != want {
-            if pending_count(&want) < pending_count(&rr_model_nounion(&d0, &c1)) {
-                st.collisions += 1;
-            }
             record("reset_remove", format!("reset_remove({c1:?}) on {}\n   gives  {}\n   model  {}", d0.show(), got.show(), want.show()), st);
             continue;
         }
@@ -832,31 +833,29 @@ fn strip_deferred(d: &Dump) -> Dump {
         x => x.clone(),
     }
 }
-/// same model but *without* uniting colliding pending removes (to recognise the R8 shape exactly)
-fn rr_model_nounion(d: &Dump, c: &M) -> Dump {
-    fn walk(d: &Dump, c: &M) -> Dump {
-        match d {
-            Dump::Struct(name, fs) => Dump::Struct(
-                name,
-                fs.iter()
-                    .map(|(k, v)| {
-                        if *k == "deferred" {
-                            (*k, Dump::Seq(v.as_map().iter().filter_map(|(clk, ms)| { let nc = sub(&clk.as_clk(), c); if nc.is_empty() { None } else { Some(Dump::Seq(vec![Dump::clk(&nc), ms.clone()])) } }).collect()))
-                        } else {
-                            (*k, walk(v, c))
-                        }
-                    })
-                    .collect(),
-            ),
-            Dump::Map(v) => Dump::Map(v.iter().map(|(k, x)| (k.clone(), walk(x, c))).collect()),
-            x => x.clone(),
-        }
+/// number of pending removes that survive `c` when colliding ones are *not* united (to count collision cases)
+fn surviving_pending(d: &Dump, c: &M) -> usize {
+    match d {
+        Dump::Struct(_, fs) => fs
+            .iter()
+            .map(|(k, v)| {
+                if *k == "deferred" {
+                    v.as_map().iter().filter(|(clk, _)| !sub(&clk.as_clk(), c).is_empty()).count()
+                } else if *k == "entries" {
+                    // entries that reset_remove drops take their nested pending removes with them
+                    v.as_map().iter().map(|(_, e)| match e.field("clock") {
+                        Some(ec) if sub(&ec.as_clk(), c).is_empty() => 0,
+                        _ => surviving_pending(e, c),
+                    }).sum()
+                } else {
+                    surviving_pending(v, c)
+                }
+            })
+            .sum(),
+        Dump::Map(v) => v.iter().map(|(_, x)| surviving_pending(x, c)).sum(),
+        Dump::Seq(v) => v.iter().map(|x| surviving_pending(x, c)).sum(),
+        _ => 0,
     }
-    // pending_count on the result counts list entries
-    fn count(d: &Dump) -> Dump {
-        d.clone()
-    }
-    count(&walk(d, c))
 }
 fn own_clock(d: &Dump) -> Option<M> {
     match d {
@@ -901,6 +900,28 @@ fn rr_campaign<S: Sut>(seed: u64, n: u64, threads: usize) -> RrStats {
                         }
                         for s in states {
                             rr_state(s, &mut rng, &mut st, seed);
+                            // the same state holding a few removes that overtook the adds they observed
+                            // (contexts ahead of / concurrent with the state's clock, some of them close enough
+                            // to become *equal* once a clock is subtracted)
+                            if S::IS_MAP || S::NAME == "OS" {
+                                let mut t = s.clone();
+                                let base = own_clock(&dump(&t)).unwrap_or_default();
+                                for _ in 0..1 + rng.below(3) {
+                                    let mut ctx = M::new();
+                                    for a in 0..4u8 {
+                                        if rng.chance(1, 2) {
+                                            ctx.insert(a, g(&base, a) + 1 + rng.below(2) as u64);
+                                        } else if g(&base, a) > 0 && rng.chance(1, 2) {
+                                            ctx.insert(a, g(&base, a));
+                                        }
+                                    }
+                                    if ctx.is_empty() {
+                                        ctx.insert(rng.below(4) as u8, g(&base, 0) + 2);
+                                    }
+                                    t.inject_future_remove(&ctx, rng.below(3) as u8);
+                                }
+                                rr_state(&t, &mut rng, &mut st, seed);
+                            }
                         }
                     }
                     st
